@@ -173,6 +173,13 @@ func (e *Exec) sx(env *SpecEnv, x ast.Expr) SVal {
 	case *ast.TypeAssertExpr:
 		v := e.sx(env, n.X)
 		t := info.TypeOf(n.Type)
+		// argN of an atcall clause is declared "any" in the contract text but bound to the actual,
+		// statically typed argument: the assertion only restores the static type
+		if v.Typ != nil {
+			if _, isIface := types.Unalias(v.Typ).Underlying().(*types.Interface); !isIface {
+				return SVal{T: v.T, Typ: v.Typ, Ref: v.Ref}
+			}
+		}
 		if _, ok := types.Unalias(t).Underlying().(*types.Interface); ok {
 			return SVal{T: v.T, Typ: t}
 		}
@@ -689,12 +696,26 @@ func (e *Exec) sxCall(env *SpecEnv, n *ast.CallExpr) SVal {
 	case "held":
 		id := e.lockID(env, n.Args[0])
 		if l := e.sxAddr(env, n.Args[0]); l != nil && len(env.bound) == 0 {
-			if lc, ok := e.w.discipline().classes[strings.TrimPrefix(l.Map, "F_")]; ok && lc.Rank > 0 {
+			cls := strings.TrimPrefix(l.Map, "F_")
+			if _, known := e.w.discipline().classes[cls]; !known {
+				cls = e.specProv(env, n.Args[0])
+			}
+			if lc, ok := e.w.discipline().classes[cls]; ok && lc.Rank > 0 {
 				// the class of a mutex field is a static fact about its address
 				e.sc.assume("true", fmt.Sprintf("(= (%s %s) %d)", e.lockclassFun(), id, lc.Rank))
 			}
 		}
 		return SVal{T: sel(e.hget(env.heap(), "G_held"), id), Typ: boolT}
+	case "holdsAsAtEntry":
+		// holdsAsAtEntry(): the set of held locks is what it was when the function was entered
+		if env.old == nil {
+			return e.specErr(env, n, "holdsAsAtEntry needs an entry state")
+		}
+		return SVal{T: eq(e.hget(env.heap(), "G_held"), e.hget(env.old, "G_held")), Typ: boolT}
+	case "holdsEntryPlus":
+		// holdsEntryPlus(m): the locks held at entry plus m
+		id := e.lockID(env, n.Args[0])
+		return SVal{T: fmt.Sprintf("(= %s (store %s %s true))", e.hget(env.heap(), "G_held"), e.hget(env.old, "G_held"), id), Typ: boolT}
 	case "holdsOnly":
 		id := e.lockID(env, n.Args[0])
 		return SVal{T: fmt.Sprintf("(= %s (store ((as const (Array Int Bool)) false) %s true))", e.hget(env.heap(), "G_held"), id), Typ: boolT}
@@ -703,6 +724,13 @@ func (e *Exec) sxCall(env *SpecEnv, n *ast.CallExpr) SVal {
 		cls := ""
 		if l := e.sxAddr(env, n.Args[0]); l != nil {
 			cls = strings.TrimPrefix(l.Map, "F_")
+		}
+		if _, known := e.w.discipline().classes[cls]; !known {
+			// a lock reached through a library struct (p.rwCond.L): its class is the access path from the
+			// repository struct, as in the lockorder declaration
+			if p := e.specProv(env, n.Args[0]); p != "" {
+				cls = p
+			}
 		}
 		lc, ok := e.w.discipline().classes[cls]
 		if !ok || lc.Rank == 0 {
@@ -952,6 +980,13 @@ func (e *Exec) sxCall(env *SpecEnv, n *ast.CallExpr) SVal {
 			return SVal{T: sel(sel(e.hget(env.heap(), vlen), b), e.mat(env, e.sx(env, n.Args[1]))), Typ: intT}
 		}
 		return SVal{T: sel(sel(sel(e.hget(env.heap(), val), b), e.mat(env, e.sx(env, n.Args[1]))), e.mat(env, e.sx(env, n.Args[2]))), Typ: types.Typ[types.Byte]}
+	case "calls":
+		// calls("F"): how often the contracted function F has been called on this path so far
+		lit, ok := n.Args[0].(*ast.BasicLit)
+		if !ok {
+			return e.specErr(env, n, "calls needs a string literal")
+		}
+		return SVal{T: e.hget(env.heap(), e.callsCounter(strings.Trim(lit.Value, "\""))), Typ: intT}
 	case "called":
 		lit, ok := n.Args[0].(*ast.BasicLit)
 		if !ok {
@@ -981,6 +1016,25 @@ func (e *Exec) sxCall(env *SpecEnv, n *ast.CallExpr) SVal {
 			return SVal{T: env.results[i].T, Typ: env.results[i].Typ}
 		}
 		return e.specErr(env, n, "result index out of range")
+	case "heapHas", "heapRef", "heapLen", "heapMin":
+		// ghost state of a priority queue owned by object x (models_heap.go)
+		has, ref, cnt, min := e.heapGhost()
+		x := e.mat(env, e.sx(env, n.Args[0]))
+		switch name {
+		case "heapLen":
+			return SVal{T: sel(e.hget(env.heap(), cnt), x), Typ: intT}
+		case "heapMin":
+			return SVal{T: sel(e.hget(env.heap(), min), x), Typ: types.Typ[types.Uint64]}
+		case "heapHas":
+			return SVal{T: sel(sel(e.hget(env.heap(), has), x), e.mat(env, e.sx(env, n.Args[1]))), Typ: boolT}
+		}
+		// heapRef(x, s, typed nil pointer) would need a type argument: the element type is taken from the
+		// generic instantiation heapRef[T]
+		var rt types.Type = types.Typ[types.Int]
+		if tv, ok := env.pkg.Info.Types[n]; ok && tv.Type != nil {
+			rt = tv.Type
+		}
+		return SVal{T: sel(sel(e.hget(env.heap(), ref), x), e.mat(env, e.sx(env, n.Args[1]))), Typ: rt}
 	case "fieldOf":
 		// fieldOf(p, "name"): field of the struct p points to, by name - also unexported fields of
 		// another package of the repository (which Go-typed contract text cannot mention)
